@@ -26,6 +26,11 @@ pub struct Cfg {
     pub reannounce_ms: Option<u64>,
     /// per-link latency matrix index (base-3 digits over ordered pairs) for n <= 3; None = 20 ms
     pub matrix: Option<u32>,
+    /// how the application uses the announcing search: 0 reads the stream to its end; 1 drops the stream
+    /// at once (fire and forget); 2 drops it after 300 ms; 3 a plain search for the same info-hash is
+    /// requested 1 ms before the announcing one on the same node (both read); 4 = 3 with the announcing
+    /// stream dropped at once
+    pub usage: u8,
     pub rng_seed: u64,
 }
 
@@ -90,7 +95,23 @@ pub fn scenario(cfg: &Cfg) -> Scenario {
     }
     let ih = info_hash();
     // everybody has 3 s to bootstrap (round trips <= 2 x 480 ms in the matrix alphabet)
-    sc.actions.push((When::At(4_000), Action::Search { node: cfg.announcer, info_hash: ih, announce: true, tag: "ann".into() }));
+    if cfg.usage >= 3 {
+        sc.actions.push((When::At(3_999), Action::Search { node: cfg.announcer, info_hash: ih, announce: false, tag: "pre".into() }));
+    }
+    match cfg.usage {
+        1 | 4 => sc.actions.push((When::At(4_000), Action::SearchDrop { node: cfg.announcer, info_hash: ih, announce: true, tag: "ann-dropped".into(), after_ms: 0 })),
+        2 => sc.actions.push((When::At(4_000), Action::SearchDrop { node: cfg.announcer, info_hash: ih, announce: true, tag: "ann-dropped".into(), after_ms: 300 })),
+        _ => sc.actions.push((When::At(4_000), Action::Search { node: cfg.announcer, info_hash: ih, announce: true, tag: "ann".into() })),
+    }
+    if matches!(cfg.usage, 1 | 2 | 4) {
+        // nobody watches the announcing search end: the searcher starts 30 s later (a lookup in these meshes
+        // takes a few seconds at most)
+        sc.actions.push((When::At(34_000 + cfg.offset_ms), Action::Search { node: cfg.searcher, info_hash: ih, announce: false, tag: "search".into() }));
+        sc.stop_after = vec!["search".into()];
+        sc.linger_ms = 10;
+        sc.horizon_ms = 34_000 + cfg.offset_ms + 120_000;
+        return sc;
+    }
     let mut last = "ann".to_string();
     if let Some(a2) = cfg.announcer2 {
         sc.actions.push((When::After { tag: "ann".into(), delay: cfg.announcer2_gap_ms }, Action::Search { node: a2, info_hash: ih, announce: true, tag: "ann2".into() }));
@@ -166,7 +187,7 @@ pub fn judge(cfg: &Cfg, res: &RunResult) -> Verdict {
     let mut v = vec![];
     let items: Vec<SocketAddr> = res.items("search").into_iter().map(|(_, a)| a).collect();
     let want = expected_addr(cfg, cfg.announcer);
-    let ann_end = res.finished("ann");
+    let ann_end = if matches!(cfg.usage, 1 | 2 | 4) { Some(34_000) } else { res.finished("ann") };
     let search_end = res.finished("search");
     let mut outcome = format!("items={:?}", items);
     let mut slow = false;
@@ -185,7 +206,7 @@ pub fn judge(cfg: &Cfg, res: &RunResult) -> Verdict {
         (Some(_), Some(_)) => {
             let a_addr = node_addr(cfg.announcer, cfg.v6);
             let s_addr = node_addr(cfg.searcher, cfg.v6);
-            let (a0, a1) = (res.started("ann").unwrap_or(0), ann_end.unwrap());
+            let (a0, a1) = (res.started("ann").unwrap_or(4_000), ann_end.unwrap());
             let (s0, s1) = (res.started("search").unwrap_or(0), search_end.unwrap());
             slow = slow_get_peers(res, a_addr, a0, a1) || slow_get_peers(res, s_addr, s0, s1);
             if let (Some(r0), Some(r1)) = (res.started("reann"), res.finished("reann")) {
@@ -254,7 +275,7 @@ pub fn run_cfg(cfg: &Cfg, fates: &[Option<Fate>], prefix: &[usize]) -> (RunResul
 }
 
 fn cfg_json(c: &Cfg) -> Value {
-    json!({"n":c.n,"v6":c.v6,"port":c.port,"placement":c.placement,"announcer":c.announcer,"searcher":c.searcher,"announcer2":c.announcer2,"announcer2_gap_ms":c.announcer2_gap_ms,"offset_ms":c.offset_ms,"reannounce_ms":c.reannounce_ms,"matrix":c.matrix,"rng_seed":c.rng_seed})
+    json!({"n":c.n,"v6":c.v6,"port":c.port,"placement":c.placement,"announcer":c.announcer,"searcher":c.searcher,"announcer2":c.announcer2,"announcer2_gap_ms":c.announcer2_gap_ms,"offset_ms":c.offset_ms,"reannounce_ms":c.reannounce_ms,"matrix":c.matrix,"usage":c.usage,"rng_seed":c.rng_seed})
 }
 fn cfg_parse(v: &Value) -> Cfg {
     Cfg {
@@ -269,6 +290,7 @@ fn cfg_parse(v: &Value) -> Cfg {
         offset_ms: v["offset_ms"].as_u64().unwrap_or(1000),
         reannounce_ms: v["reannounce_ms"].as_u64(),
         matrix: v["matrix"].as_u64().map(|m| m as u32),
+        usage: v["usage"].as_u64().unwrap_or(0) as u8,
         rng_seed: v["rng_seed"].as_u64().unwrap_or(1),
     }
 }
@@ -327,7 +349,7 @@ pub fn run(tier: Tier) -> Report {
                         (0..n).flat_map(|a| (0..n).filter(move |s| *s != a).map(move |s| (a, s))).collect()
                     } else {
                         // announcer closest to / farthest from the info-hash x every other node
-                        let base = Cfg { n, v6, port, placement, announcer: 0, searcher: 1, announcer2: None, announcer2_gap_ms: 500, offset_ms: 1000, reannounce_ms: None, matrix: None, rng_seed: 1 };
+                        let base = Cfg { n, v6, port, placement, announcer: 0, searcher: 1, announcer2: None, announcer2_gap_ms: 500, offset_ms: 1000, reannounce_ms: None, matrix: None, usage: 0, rng_seed: 1 };
                         let ih: [u8; 20] = info_hash().into();
                         let mut order: Vec<usize> = (0..n).collect();
                         order.sort_by_key(|i| sim::peers::xor_dist(&node_id(&base, *i).into(), &ih));
@@ -335,7 +357,7 @@ pub fn run(tier: Tier) -> Report {
                         picks.iter().flat_map(|&a| (0..n).filter(move |s| *s != a).map(move |s| (a, s))).collect()
                     };
                     for (a, s) in pairs {
-                        cfgs.push(Cfg { n, v6, port, placement, announcer: a, searcher: s, announcer2: None, announcer2_gap_ms: 500, offset_ms: 1000, reannounce_ms: None, matrix: None, rng_seed: 1 + seed });
+                        cfgs.push(Cfg { n, v6, port, placement, announcer: a, searcher: s, announcer2: None, announcer2_gap_ms: 500, offset_ms: 1000, reannounce_ms: None, matrix: None, usage: 0, rng_seed: 1 + seed });
                     }
                 }
             }
@@ -345,7 +367,21 @@ pub fn run(tier: Tier) -> Report {
     for &n in ns.iter().filter(|n| **n >= 3).take(2) {
         for (a, b) in [(0usize, 1usize), (1, 0)] {
             for v6 in [false, true] {
-                cfgs.push(Cfg { n, v6, port: Some(4242), placement: 0, announcer: a, searcher: 2, announcer2: Some(b), announcer2_gap_ms: 500, offset_ms: 1000, reannounce_ms: None, matrix: None, rng_seed: 1 + seed });
+                cfgs.push(Cfg { n, v6, port: Some(4242), placement: 0, announcer: a, searcher: 2, announcer2: Some(b), announcer2_gap_ms: 500, offset_ms: 1000, reannounce_ms: None, matrix: None, usage: 0, rng_seed: 1 + seed });
+            }
+        }
+    }
+    // how the application uses the announcing search (stream dropped at once / after 300 ms, a plain search
+    // for the same info-hash already running on the announcer)
+    for usage in 1..=4u8 {
+        for n in [2usize, 3] {
+            for v6 in [false, true] {
+                for port in [None, Some(4242u16)] {
+                    if tier == Tier::Quick && v6 && port.is_some() {
+                        continue;
+                    }
+                    cfgs.push(Cfg { n, v6, port, placement: 0, announcer: 0, searcher: n - 1, announcer2: None, announcer2_gap_ms: 500, offset_ms: 1000, reannounce_ms: None, matrix: None, usage, rng_seed: 1 + seed });
+                }
             }
         }
     }
@@ -356,24 +392,24 @@ pub fn run(tier: Tier) -> Report {
     );
     for &off in &offsets {
         for v6 in [false, true] {
-            cfgs.push(Cfg { n: 2, v6, port: None, placement: 0, announcer: 0, searcher: 1, announcer2: None, announcer2_gap_ms: 500, offset_ms: off, reannounce_ms: None, matrix: None, rng_seed: 1 + seed });
+            cfgs.push(Cfg { n: 2, v6, port: None, placement: 0, announcer: 0, searcher: 1, announcer2: None, announcer2_gap_ms: 500, offset_ms: off, reannounce_ms: None, matrix: None, usage: 0, rng_seed: 1 + seed });
         }
-        cfgs.push(Cfg { n: 3, v6: false, port: Some(4242), placement: 1, announcer: 1, searcher: 2, announcer2: None, announcer2_gap_ms: 500, offset_ms: off, reannounce_ms: None, matrix: None, rng_seed: 1 + seed });
+        cfgs.push(Cfg { n: 3, v6: false, port: Some(4242), placement: 1, announcer: 1, searcher: 2, announcer2: None, announcer2_gap_ms: 500, offset_ms: off, reannounce_ms: None, matrix: None, usage: 0, rng_seed: 1 + seed });
     }
     // re-announce at 12 h: still found at 24 h + 5 s after the first announce, gone 24 h + 5 s after the second
     for (re, off) in [(43_200_000u64, 43_205_000u64), (43_200_000, 86_405_000)] {
-        cfgs.push(Cfg { n: 2, v6: false, port: None, placement: 0, announcer: 0, searcher: 1, announcer2: None, announcer2_gap_ms: 500, offset_ms: off, reannounce_ms: Some(re), matrix: None, rng_seed: 1 + seed });
+        cfgs.push(Cfg { n: 2, v6: false, port: None, placement: 0, announcer: 0, searcher: 1, announcer2: None, announcer2_gap_ms: 500, offset_ms: off, reannounce_ms: Some(re), matrix: None, usage: 0, rng_seed: 1 + seed });
     }
     // two announcers an hour apart, the first renews after 12 h; probes where only one of them is still live
     for (n, searcher) in tier.pick(vec![(3usize, 2usize)], vec![(3, 2), (4, 3)]) {
         for off in [3_600_000u64, 48_600_000, 87_000_000] {
-            cfgs.push(Cfg { n, v6: false, port: Some(4242), placement: 0, announcer: 0, searcher, announcer2: Some(1), announcer2_gap_ms: 3_600_000, offset_ms: off, reannounce_ms: Some(39_600_000), matrix: None, rng_seed: 1 + seed });
+            cfgs.push(Cfg { n, v6: false, port: Some(4242), placement: 0, announcer: 0, searcher, announcer2: Some(1), announcer2_gap_ms: 3_600_000, offset_ms: off, reannounce_ms: Some(39_600_000), matrix: None, usage: 0, rng_seed: 1 + seed });
         }
     }
     if tier == Tier::Thorough {
         for n in [5usize, 9] {
             for off in [86_390_000u64, 86_405_000] {
-                cfgs.push(Cfg { n, v6: false, port: None, placement: 0, announcer: 0, searcher: n - 1, announcer2: None, announcer2_gap_ms: 500, offset_ms: off, reannounce_ms: None, matrix: None, rng_seed: 1 + seed });
+                cfgs.push(Cfg { n, v6: false, port: None, placement: 0, announcer: 0, searcher: n - 1, announcer2: None, announcer2_gap_ms: 500, offset_ms: off, reannounce_ms: None, matrix: None, usage: 0, rng_seed: 1 + seed });
             }
         }
     }
@@ -404,7 +440,7 @@ pub fn run(tier: Tier) -> Report {
                 if n == 3 && tier == Tier::Quick && a == 1 {
                     continue;
                 }
-                mcfgs.push(Cfg { n, v6: false, port: None, placement: 0, announcer: a, searcher: if n == 3 { 2 } else { s }, announcer2: None, announcer2_gap_ms: 500, offset_ms: 1000, reannounce_ms: None, matrix: Some(m), rng_seed: 1 + seed });
+                mcfgs.push(Cfg { n, v6: false, port: None, placement: 0, announcer: a, searcher: if n == 3 { 2 } else { s }, announcer2: None, announcer2_gap_ms: 500, offset_ms: 1000, reannounce_ms: None, matrix: Some(m), usage: 0, rng_seed: 1 + seed });
             }
         }
     }
@@ -428,7 +464,7 @@ pub fn run(tier: Tier) -> Report {
     let bound = tier.pick(1, 2);
     for (n, a, s, v6, port, placement) in [(2usize, 0usize, 1usize, false, None, 0u8), (3, 0, 2, false, Some(4242u16), 0), (3, 2, 1, true, None, 1), (4, 1, 3, false, None, 2)] {
         let b = if n >= 4 { 1 } else if n == 2 { 2 } else { bound };
-        ecfgs.push((Cfg { n, v6, port, placement, announcer: a, searcher: s, announcer2: None, announcer2_gap_ms: 500, offset_ms: 1000, reannounce_ms: None, matrix: None, rng_seed: 1 + seed }, b));
+        ecfgs.push((Cfg { n, v6, port, placement, announcer: a, searcher: s, announcer2: None, announcer2_gap_ms: 500, offset_ms: 1000, reannounce_ms: None, matrix: None, usage: 0, rng_seed: 1 + seed }, b));
     }
     let mut levels = vec![];
     for (cfg, b) in &ecfgs {
